@@ -73,6 +73,12 @@ PROPS = {
         "shards": {"quick": 12, "thorough": 16}, "timeout": {"quick": 600, "thorough": 12000},
         "floors": {"quick": {"modifications": 300, "end_markers_seen": 300}, "thorough": {"modifications": 20000}},
     },
+    "C16": {
+        "test": "TestVerif_C16", "level": "exploration", "pre": "c16_generator",
+        "rule": "every Write update received by the harness P4Runtime server is validated against the shipped P4Info (table/field/kind/width, action refs and parameter set, priority, index ranges) under sessions spanning precedence {0,1,2,255,256,32767,32768,65533,65534,65535,>65535}, extreme addresses/TEIDs/ports/prefix lengths, QFI 0-63, 40-bit rates, gates, buffering/drop, 0-2 QERs, CHOOSE, on agent configurations drawn over slice 0-15, default TC 0-3, QFI->TC maps, three access addresses/UE pools; establishment + modification + deletion + slice meter; compiled-in constants cross-checked against the P4Info; the real generator binary run 5 (quick) / 50 (thorough) times: gofmt'd output byte-compared with the committed constants and runs compared with each other; distinct = <precedence class, SDF?, QERs, FAR action, accepted, slice class> + generator runs",
+        "shards": {"quick": 12, "thorough": 16}, "timeout": {"quick": 600, "thorough": 12000},
+        "floors": {"quick": {"sessions_driven": 800, "p4_updates_validated": 8000, "generator_runs": 5}, "thorough": {"sessions_driven": 40000, "generator_runs": 50}},
+    },
     "C10": {
         "test": "TestVerif_C10", "level": "exploration",
         "rule": "scenario = {0..n associations (some >100)} x {0-3 sessions} x trigger per association {release, silence->read timeout(+heartbeat failure), unanswered heartbeats, live} x requests in flight x datapath reply delay x PFCPIface.Stop() at a drawn offset (+-3.5 ms around the coinciding triggers), fresh agent per scenario, plus a 'refresh' family (association ends without Stop, same address:port associates afresh, bystander association checked); distinct = distinct interleaving signatures (datapath, heartbeat on/off, delay, stop offset in ms, multiset of per-association <trigger, order relative to Stop, release answered?, sessions>)",
